@@ -29,3 +29,20 @@ def needs_marker(section):
     if getattr(section, "marker", None) == "bad":
         raise ValueError("marker is bad")
     return section
+
+
+class Holder:
+    """Datatype functions reached through objects that are not modules."""
+
+    @staticmethod
+    def conv(value):
+        return value
+
+    @staticmethod
+    def lower(value):
+        return value.lower()
+
+    class Inner:
+        @staticmethod
+        def conv(value):
+            return value
